@@ -216,7 +216,9 @@ fn parse_field(base_data_size: usize, field: &Field) -> Result<FieldDefinition> 
                             }
                             ranges.push(Range {
                                 start: lower,
-                                end: upper + 1,
+                                end: upper.checked_add(1).ok_or_else(|| {
+                                    Error::new_spanned(&range_span, "bitfield!: Bit index is too large")
+                                })?,
                             });
                         }
                         ArgumentParser::RangeGotLowerLimit(lower) => {
@@ -228,7 +230,9 @@ fn parse_field(base_data_size: usize, field: &Field) -> Result<FieldDefinition> 
                             }
                             ranges.push(Range {
                                 start: lower,
-                                end: lower + 1,
+                                end: lower.checked_add(1).ok_or_else(|| {
+                                    Error::new_spanned(&range_span, "bitfield!: Bit index is too large")
+                                })?,
                             });
                         }
                         ArgumentParser::ReadWrite => {
@@ -311,7 +315,9 @@ fn parse_field(base_data_size: usize, field: &Field) -> Result<FieldDefinition> 
 
     // We know that ranges has at least one value
     // TODO: Verify all uses of this - some are still good, others not so much
-    let number_of_bits = ranges.iter().fold(0, |a, b| a + b.end - b.start);
+    let number_of_bits = ranges
+        .iter()
+        .fold(0usize, |a, b| a.saturating_add(b.end - b.start));
 
     let (field_type_size, primitive_type) = match field_type_size_from_data_type {
         None => (number_of_bits, {
@@ -378,8 +384,12 @@ fn parse_field(base_data_size: usize, field: &Field) -> Result<FieldDefinition> 
         }
 
         let highest_bit_index_in_ranges = ranges.iter().map(|range| range.end).max().unwrap_or(0);
-        let number_of_bits_indexed =
-            (indexed_count - 1) * indexed_stride.unwrap() + highest_bit_index_in_ranges;
+        // Checked arithmetic: huge counts or strides must not wrap around into the valid range
+        let number_of_bits_indexed = indexed_count
+            .saturating_sub(1)
+            .checked_mul(indexed_stride.unwrap())
+            .and_then(|bits| bits.checked_add(highest_bit_index_in_ranges))
+            .unwrap_or(usize::MAX);
         if number_of_bits_indexed > base_data_size {
             return Err(Error::new_spanned(
                 field.attrs.first(),
